@@ -19,11 +19,13 @@ FRAGMENTS = [
     "{{a|{{#expr:1}}=x}}", "{{a|{{{n|1}}}=x}}", "{{b|{{lc:X}}=q|{{#expr:1+1}}=r}}", "{{a|{{#if:x|2}}=v|{{#if:|2}}=w}}",
     "{{a|{{#expr:0}}=z}}", "{{a|{{m1}}=v}}", "{{a|0{{#expr:1}}=v}}", "{{#invoke:echo|main|{{#expr:1}}=x|{{lc:K}}=y}}",
     "{{a|{{a|1}}=x}}", "{{b|{{{1|3}}}=p}}",
+    # Lua errors that are recognised by their text and ignored
+    "{{#invoke:ign1|main}}", "{{#invoke:ign2|main}}", "{{a|{{#invoke:ign1|main}}}}",
 ]
 FLAT_SAFE = ["{{#invoke:ppraw|main|boom}}", "{{#invoke:ppcall|main|boom}}", "{{#invoke:etcall|main|boom}}", "{{a|x}}", "{{b|p|x=q}}", "{{#if:x|y|z}}", "{{#invoke:echo|main|a}}", "{{lc:ABC}}", "{{missing}}",
              "{{#invoke:bad|main}}", "{{inv|q}}", "{{a|{{#expr:1}}=x}}", "{{b|{{lc:X}}=q}}", "{{a|{{{n|1}}}=x}}",
              # cut-off template loops are flat too: each costs a bounded depth and must leave nothing behind
-             "{{loop}}", "{{m1}}", "{{#if:x|{{loop}}}}", "{{a|{{loop}}}}"]
+             "{{loop}}", "{{m1}}", "{{#if:x|{{loop}}}}", "{{a|{{loop}}}}", "{{#invoke:ign1|main}}", "{{#invoke:ign2|main}}"]
 
 
 def gen_case(rng, heavy=False):
